@@ -48,7 +48,7 @@ def _pos_forms(p, last):
     if p == "s":
         return ([["STR"], ["ML"], ["text:\n..x\n."], ["text: #c\nabc\n."], ["text:\n\n."], ["text:\n."], ["TEXT:\nabc\n."], ["Text:\t#c\nabc\n."], ['"a\\"b\\\\"'], ['""']]
                 if last else [["STR"]])
-    return [["STR"], ["LIST1"], ["LIST2"]]
+    return [["STR"], ["LIST1"], ["LIST2"], ["LISTDUP"]]
 
 
 def _tag_syms(tag, spec):
@@ -61,7 +61,7 @@ def _tag_syms(tag, spec):
         return [[tag, "NUM"]]
     if ptype == "s":
         return [[tag, "STR"], [tag, "ML"]]
-    return [[tag, "STR"], [tag, "LIST2"], [tag, "ML"]]
+    return [[tag, "STR"], [tag, "LIST2"], [tag, "ML"], [tag, "LISTDUP"]]
 
 
 def command_forms(name, max_slots=None, max_forms=None):
@@ -179,6 +179,8 @@ def flatten(word):
             out.extend(["[", "STR", "]"])
         elif s == "LIST2":
             out.extend(["[", "STR", ",", "STR", "]"])
+        elif s == "LISTDUP":
+            out.extend(["[", '"dup"', ",", "STR", ",", '"dup"', "]"])
         else:
             out.append(s)
     return tuple(out)
